@@ -9,6 +9,10 @@ for d in seeded/${1:-*}/; do
   d=${d%/}; name=$(basename $d)
   [ -f $d/patch.diff ] || continue
   prop=${name%%-*}
+  if [ -f $d/neutralised ]; then
+    # a later repair of the library took the change's effect away (the reason is in the file): nothing to detect
+    printf "%s\t%s\tneutralised\t-\t%s\n" $name $prop "$(head -c 200 $d/neutralised | tr '\t\n' '  ')" >> $out; continue
+  fi
   if git -C /repo apply --check /verif/$d/patch.diff 2>/dev/null; then
     git -C /repo apply /verif/$d/patch.diff
   elif git -C /repo apply --3way /verif/$d/patch.diff >/dev/null 2>&1 && ! git -C /repo diff --name-only --diff-filter=U | grep -q .; then
